@@ -1,8 +1,240 @@
-//! C14 correspondence streams (stub).
-use crate::util::Opts;
+//! C14: LCD line/mode schedule.  The real `VideoState` (and, for `c14.io`, the real `IO`) is driven
+//! through its public API only: power-on, one STAT write, one LYC write, then a list of
+//! `run_clock_cycles` batches (multiples of 4 clocks), observing LY, STAT and the returned
+//! interrupt flags after every batch.
+//!
+//! c14.step | c14.run | c14.io :
+//!   c14.<sub> stat=<n> lyc=<n> b=<list> | w=<4 hex: flags of the STAT write, of the LYC write> o=<6 hex per batch: LY STAT flags>
+//! c14.part (the same elapsed time under two partitions):
+//!   c14.part stat=<n> lyc=<n> a=<list> b=<list> | oa=<6 hex: final LY, final STAT, OR of all flags> ob=<6 hex>
+//! <list> = comma separated items `N` (one batch of N clocks) or `NxM` (M batches of N clocks).
+use crate::devices::io::IO;
+use crate::devices::video::VideoState;
+use crate::timing::ClockCycles;
+use crate::util::{Opts, Rng};
 use std::io::Write;
 
-pub fn run(sub: &str, _opts: &Opts, _w: &mut dyn Write) {
-  eprintln!("stream c14.{} not implemented", sub);
-  std::process::exit(2);
+const FRAME: usize = 70224;
+const LYCS: [u8; 9] = [0, 1, 2, 143, 144, 145, 153, 154, 255];
+
+/// one list item: `n` clocks, repeated `m` times
+type Item = (usize, usize);
+
+fn list_str(items: &[Item]) -> String {
+  let mut s = String::new();
+  for (i, (n, m)) in items.iter().enumerate() {
+    if i > 0 { s.push(','); }
+    if *m == 1 { s.push_str(&format!("{}", n)); } else { s.push_str(&format!("{}x{}", n, m)); }
+  }
+  s
+}
+
+fn parse_list(s: &str) -> Vec<Item> {
+  s.split(',').filter(|t| !t.is_empty()).map(|t| {
+    let mut it = t.split('x');
+    let n = it.next().unwrap().parse().unwrap();
+    let m = it.next().map(|x| x.parse().unwrap()).unwrap_or(1);
+    (n, m)
+  }).collect()
+}
+
+fn total(items: &[Item]) -> usize { items.iter().map(|(n, m)| n * m).sum() }
+
+fn push_obs(o: &mut String, ly: u8, st: u8, fl: u8) {
+  o.push_str(&format!("{:02x}{:02x}{:02x}", ly, st, fl));
+}
+
+/// drive `VideoState` directly; returns (w, o)
+fn drive_video(stat: u8, lyc: u8, items: &[Item], every: bool) -> (String, String) {
+  let vram: Box<[u8]> = vec![0u8; 0x2000].into_boxed_slice();
+  let oam: Box<[u8]> = vec![0u8; 0xa0].into_boxed_slice();
+  let mut v = VideoState::new();
+  let w1 = v.set_lcd_status(stat).as_u8();
+  let w2 = v.set_ly_compare(lyc).as_u8();
+  let mut o = String::new();
+  let mut acc = 0u8;
+  for (n, m) in items {
+    for _ in 0..*m {
+      let fl = v.run_clock_cycles(ClockCycles(*n), &vram, &oam).as_u8();
+      acc |= fl;
+      if every { push_obs(&mut o, v.get_ly(), v.get_lcd_status(), fl); }
+    }
+  }
+  if !every {
+    // `get_current_mode` must agree with STAT bits 0..1; fold a disagreement into the flag byte
+    let st = v.get_lcd_status();
+    let bad = if v.get_current_mode() != st & 3 { 0x80 } else { 0 };
+    push_obs(&mut o, v.get_ly(), st, acc | bad);
+  }
+  (format!("{:02x}{:02x}", w1, w2), o)
+}
+
+/// the same through the I/O register file: FF41/FF45 writes, FF44/FF41 reads, IF bits 0..1
+fn drive_io(stat: u8, lyc: u8, items: &[Item]) -> (String, String) {
+  let vram: Box<[u8]> = vec![0u8; 0x2000].into_boxed_slice();
+  let oam: Box<[u8]> = vec![0u8; 0xa0].into_boxed_slice();
+  let mut io = IO::new();
+  io.set_byte(0xff0f, 0);
+  io.set_byte(0xff41, stat);
+  let w1 = io.get_byte(0xff0f) & 0x1b;
+  io.set_byte(0xff0f, 0);
+  io.set_byte(0xff45, lyc);
+  let w2 = io.get_byte(0xff0f) & 0x1b;
+  io.set_byte(0xff0f, 0);
+  let mut o = String::new();
+  for (n, m) in items {
+    for _ in 0..*m {
+      io.run_clock_cycles(ClockCycles(*n), &vram, &oam);
+      // bit 2 is the timer's, not the LCD's
+      let fl = io.get_byte(0xff0f) & 0x1b;
+      io.set_byte(0xff0f, 0);
+      push_obs(&mut o, io.get_byte(0xff44), io.get_byte(0xff41), fl);
+    }
+  }
+  (format!("{:02x}{:02x}", w1, w2), o)
+}
+
+fn emit(sub: &str, stat: u8, lyc: u8, items: &[Item], w: &mut dyn Write) {
+  let (ws, o) = if sub == "io" { drive_io(stat, lyc, items) } else { drive_video(stat, lyc, items, true) };
+  writeln!(w, "c14.{} stat={} lyc={} b={} | w={} o={}", sub, stat, lyc, list_str(items), ws, o).unwrap();
+}
+
+fn emit_part(stat: u8, lyc: u8, a: &[Item], b: &[Item], w: &mut dyn Write) {
+  let (_, oa) = drive_video(stat, lyc, a, false);
+  let (_, ob) = drive_video(stat, lyc, b, false);
+  writeln!(w, "c14.part stat={} lyc={} a={} b={} | oa={} ob={}", stat, lyc, list_str(a), list_str(b), oa, ob).unwrap();
+}
+
+/// a random partition of at least `min_total` clocks into multiples of 4
+fn gen_partition(rng: &mut Rng, min_total: usize, style: u64) -> Vec<Item> {
+  const PICKS: [usize; 16] = [4, 8, 76, 80, 84, 184, 188, 192, 268, 452, 456, 460, 4560, 65664, 70220, 70224];
+  let mut items: Vec<Item> = Vec::new();
+  let mut t = 0usize;
+  while t < min_total {
+    let n = match style {
+      0 => 4 * (1 + rng.below(6) as usize),                 // instruction sized: 4..24
+      1 => 4 * (1 + rng.below(16) as usize),                // 4..64
+      2 => 4 * (1 + rng.below(500) as usize),               // up to ~4 lines
+      3 => {                                                // around whole lines
+        let k = 1 + rng.below(12) as usize;
+        (456 * k + 4 * rng.below(3) as usize).saturating_sub(4).max(4)
+      },
+      4 => 4 * (1 + rng.below(2 * FRAME as u64 / 4) as usize), // up to two frames
+      5 => *rng.pick(&PICKS),
+      6 => FRAME * (1 + rng.below(3) as usize) + 4 * rng.below(3) as usize - 4, // around whole frames
+      _ => match rng.below(4) {                             // mixture
+        0 => 4 * (1 + rng.below(6) as usize),
+        1 => 4 * (1 + rng.below(500) as usize),
+        2 => *rng.pick(&PICKS),
+        _ => 4 * (1 + rng.below(FRAME as u64 / 2) as usize),
+      },
+    };
+    // merge equal neighbours into NxM
+    match items.last_mut() {
+      Some((pn, pm)) if *pn == n => *pm += 1,
+      _ => items.push((n, 1)),
+    }
+    t += n;
+  }
+  items
+}
+
+/// a random partition of exactly `tot` clocks (`tot` a multiple of 4)
+fn gen_exact(rng: &mut Rng, tot: usize, style: u64) -> Vec<Item> {
+  let mut items = gen_partition(rng, tot, style);
+  // trim the overshoot from the end
+  let mut over = total(&items) - tot;
+  while over > 0 {
+    let (n, m) = items.pop().unwrap();
+    if m > 1 { items.push((n, m - 1)); }
+    if n > over { items.push((n - over, 1)); over = 0; } else { over -= n; }
+  }
+  items
+}
+
+fn case_rng(opts: &Opts, sub_id: u64, i: usize) -> Rng {
+  Rng::new(opts.seed.wrapping_mul(0x1000193).wrapping_add((i as u64) << 3).wrapping_add(sub_id))
+}
+
+fn pick_regs(rng: &mut Rng, i: usize) -> (u8, u8) {
+  let mask = (i % 16) as u8;
+  let j = (i / 16) % 10;
+  let lyc = if j < 9 { LYCS[j] } else { rng.u8() };
+  // bits 7, 2..0 of a STAT write are not stored; set them at random in half of the cases
+  let junk = if rng.chance(1, 2) { rng.u8() & 0x87 } else { 0 };
+  ((mask << 3) | junk, lyc)
+}
+
+fn find<'a>(line: &'a str, key: &str) -> Option<&'a str> {
+  line.split(' ').take_while(|t| *t != "|").find_map(|t| t.strip_prefix(key).and_then(|r| r.strip_prefix('=')))
+}
+
+fn replay(sub: &str, line: &str, w: &mut dyn Write) {
+  let stat: u8 = find(line, "stat").and_then(|s| s.parse().ok()).expect("stat=");
+  let lyc: u8 = find(line, "lyc").and_then(|s| s.parse().ok()).expect("lyc=");
+  let b = parse_list(find(line, "b").expect("b="));
+  if sub == "part" {
+    let a = parse_list(find(line, "a").expect("a="));
+    emit_part(stat, lyc, &a, &b, w);
+  } else {
+    emit(sub, stat, lyc, &b, w);
+  }
+}
+
+pub fn run(sub: &str, opts: &Opts, w: &mut dyn Write) {
+  if let Some(line) = opts.get("replay-line") {
+    replay(sub, line, w);
+    return;
+  }
+  let (si, sn) = opts.shard();
+  match sub {
+    // every single 4-clock tick of more than one frame (quick) / three frames (thorough),
+    // all 16 enable masks x the LYC boundary set (quick) / all 256 LYC values (thorough)
+    "step" => {
+      let lycs: Vec<u8> = if opts.thorough { (0..=255u8).collect() } else { LYCS.to_vec() };
+      let ticks = if opts.thorough { 3 * FRAME / 4 + 120 } else { FRAME / 4 + 240 };
+      let mut i = 0usize;
+      for lyc in lycs { for mask in 0..16u8 {
+        if i % sn == si { emit("step", mask << 3, lyc, &[(4, ticks)], w); }
+        i += 1;
+      }}
+    },
+    // random partitions of at least three frames
+    "run" | "io" => {
+      let n = match (sub, opts.thorough) {
+        ("run", false) => 1600, ("run", true) => 160_000,
+        (_, false) => 160, (_, true) => 8_000,
+      };
+      let sub_id = if sub == "run" { 1 } else { 2 };
+      for i in 0..n {
+        if i % sn != si { continue; }
+        let mut rng = case_rng(opts, sub_id, i);
+        let (stat, lyc) = pick_regs(&mut rng, i);
+        // instruction-sized batches make long lines; keep them to 1 case in 8
+        let style = match rng.below(16) { 0 | 1 => 0, 2 | 3 => 1, 4 | 5 | 6 => 2, 7 | 8 => 3, 9 | 10 => 4, 11 | 12 => 5, 13 => 6, _ => 7 };
+        let min_total = 3 * FRAME + 4 * rng.below(FRAME as u64 / 4) as usize;
+        let items = gen_partition(&mut rng, min_total, style);
+        emit(sub, stat, lyc, &items, w);
+      }
+    },
+    // the same elapsed time, two partitions
+    "part" => {
+      let n = if opts.thorough { 32_000 } else { 320 };
+      for i in 0..n {
+        if i % sn != si { continue; }
+        let mut rng = case_rng(opts, 3, i);
+        let (stat, lyc) = pick_regs(&mut rng, i);
+        let tot = 3 * FRAME + 4 * rng.below(FRAME as u64 / 4) as usize;
+        let sa = 1 + rng.below(7);
+        let a = gen_exact(&mut rng, tot, sa);
+        // the second partition: one single call in a quarter of the cases
+        let b = if rng.chance(1, 4) { vec![(tot, 1)] } else { let sb = 1 + rng.below(7); gen_exact(&mut rng, tot, sb) };
+        emit_part(stat, lyc, &a, &b, w);
+      }
+    },
+    _ => {
+      eprintln!("unknown stream c14.{}", sub);
+      std::process::exit(2);
+    }
+  }
 }
